@@ -99,7 +99,8 @@ class Recorder:
                         fam.fit(model, w.ds[a["arg"]])
                         fitted = True
                     elif k == "transform":
-                        res = fam.transform(model, w.ds[a["arg"]])
+                        res = fam.transform(model, w.ds[a["arg"]], wrap=bool(a.get("wrapped")))
+                        ev["wrapped"] = bool(a.get("wrapped"))
                         cands = [d for d in names if w.ds_mem[d].nitems == w.ds_mem[a["arg"]].nitems]
                         ev["answerFrom"] = self.which(lambda d: L.same(res, fam.transform(w.ref(d), w.ds_mem[a["arg"]]), what="t"), cands)
                         ev["labelsFrom"] = self.labels_from(res)
